@@ -14,11 +14,17 @@
   576f1fd; spec `Model/Spec/C18.lean`).  `C18_nested_exact`: for every state tree, every placement of final
   flags and callbacks, every configuration and every entered set a transition can produce, the owners
   whose on_final lists the transition runs are exactly the states that `fires`, children first, the
-  machine last, and the check never raises.  The three defects of the tree before the fixes (DESIGN 6
+  machine last, and the check never raises.  FALSE for the code as it is in one class of inputs (finding
+  F-C18-shared-state-object: "just entered" is recognised by state-OBJECT identity, and one child machine
+  embedded under several states shares its state objects): full statement kept as a `def`,
+  `C18_nested_exact_partial` under the decidable exclusion `noShared`, `C18_nested_exact_distinct_objects`
+  (all machines whose paths are distinct objects), `C18_nested_exact_counterexample(_shared)`.
+  The three defects of the tree before the fixes (DESIGN 6
   items 10, 11, 18) are kept as regression examples: the model of the repaired code gives the specified
   answer on their witnesses; a return of any of them is a VIOLATION (monitor) of the check.
 -/
 import Proofs.C18
+import Proofs.C18Reentrant
 import Props.C01
 
 namespace TM
@@ -93,22 +99,101 @@ theorem C18_flat_no_final_otherwise (cfg : Cfg) (w : Option Trans)
           List.mem_append, List.mem_map] at hp
         rcases hp with ⟨_, _, rfl⟩ | ⟨_, _, rfl⟩ <;> simp
 
+/-! ## flat machines, re-entrant events: EVERY script
+
+Callbacks may trigger further events (processed at once on an unqueued machine, enqueued on a queued one),
+remove / add models, raise.  Every callback start carries the tag of the trigger call whose event it runs for;
+`ownView tag` keeps the on_enter / on_final / after starts of that event only. -/
+
+/-- tags are fresh: whatever commands callbacks issue, at every fuel, nothing below a callback of the event
+`tag` starts a callback under that tag again (`nextTag` only grows; a queued machine drains only what it
+received itself) -/
+theorem C18_flat_tags_fresh (tag : Nat) (sc : Script) (cfg : Cfg) (qmax fuel : Nat) :
+    SubForeign tag (runCmd sc cfg qmax fuel) :=
+  runCmd_foreign tag sc cfg qmax fuel
+
+/-- **C18, flat, re-entrant, one transition.**  For every script, configuration, fuel and engine state:
+a transition that executes for the event with tag `x.tag` starts under that tag exactly
+`transView cfg t` — its destination's on_enter callbacks, the machine's on_final callbacks once each iff
+THAT destination is final, its after callbacks — whatever events ran inside those callbacks and wherever
+they left the model; a candidate that is blocked starts none of them. -/
+theorem C18_flat_reentrant_exact (sc : Script) (cfg : Cfg) (qmax fuel : Nat) (x : Ctx) (t : Trans) (s s' : St)
+    (b : Bool) (hn : x.tag < s.nextTag)
+    (h : execute (runCmd sc cfg qmax fuel) sc cfg x t s = .ok b s') :
+    ∃ seg, s'.log = s.log ++ seg ∧ ownView x.tag seg = (if b then transView cfg t else []) :=
+  (execute_own (runCmd_foreign x.tag sc cfg qmax fuel) sc cfg x rfl t s hn b s' h).2
+
+/-- **… one event**: the candidate loop of the event with tag `x.tag` starts under that tag
+`eventView cfg w` for the candidate `w` that executed (`none`: all blocked). -/
+theorem C18_flat_reentrant_event (sc : Script) (cfg : Cfg) (qmax fuel : Nat) (x : Ctx) (ts : List Trans) (s s' : St)
+    (b : Bool) (hn : x.tag < s.nextTag)
+    (h : tryTransitions (runCmd sc cfg qmax fuel) sc cfg x ts s = .ok b s') :
+    ∃ (w : Option Trans) (seg : List Item), s'.log = s.log ++ seg ∧ ownView x.tag seg = eventView cfg w ∧
+      w.isSome = b ∧ ∀ t, w = some t → t ∈ ts := by
+  obtain ⟨w, o, hw, hin⟩ := tryTransitions_own (runCmd_foreign x.tag sc cfg qmax fuel) sc cfg x rfl ts s hn b s' h
+  obtain ⟨_, seg, hl, hv⟩ := o
+  exact ⟨w, seg, hl, hv, hw, hin⟩
+
+/-! non-vacuity: the two histories of the seeded change (/tmp/seed/out2_C18): states 0 = A, 1 = B, 2 = C;
+on_enter callback 11 of state 1 fires event 1 (1 → 2) while event 0 (0 → 1) is still running -/
+
+def reCfg (finals : List Nat) : Cfg :=
+  { states := [{ name := 0 }, { name := 1, onEnter := [11], final := finals.contains 1 },
+               { name := 2, onEnter := [12], final := finals.contains 2 }],
+    events := [(0, [{ source := 0, dest := some 1, after := [20] }]), (1, [{ source := 1, dest := some 2, after := [21] }])],
+    onFinal := [3], initial := 0 }
+
+def reScript : Script := fun c k => if c = 11 ∧ k = 0 then { cmds := [.trigger 0 1] } else {}
+
+/-- final B whose on_enter moves on to non-final C: on_final still runs once for the entry of B (tag 0),
+after B's on_enter callback — i.e. after the whole inner event — and before `after` 20; none under tag 1 -/
+example : ((runHistory reScript (reCfg [1]) 8 3 [.trigger 0 0] (St.init (reCfg [1]) [0])).map
+    fun s => (s.stateOf 0, ownView 0 s.log, ownView 1 s.log)) =
+    some (2, [(Slot.onEnter, 11), (Slot.onFinal, 3), (Slot.after, 20)], [(Slot.onEnter, 12), (Slot.after, 21)]) := by decide
+
+/-- non-final B whose on_enter moves on to final C: on_final runs once, for the inner event (tag 1) only -/
+example : ((runHistory reScript (reCfg [2]) 8 3 [.trigger 0 0] (St.init (reCfg [2]) [0])).map
+    fun s => (s.stateOf 0, ownView 0 s.log, ownView 1 s.log)) =
+    some (2, [(Slot.onEnter, 11), (Slot.after, 20)], [(Slot.onEnter, 12), (Slot.onFinal, 3), (Slot.after, 21)]) := by decide
+
 /-! ## hierarchical machines -/
 
-/-- **C18, nested, full strength**: for every state tree, every placement of final flags and
-callbacks, every configuration and every entered set a transition can produce (`enteredWF`: the
-entered states are active afterwards, and below an entered state everything active was entered),
-`_final_check` returns — without raising — exactly the owners that fire, children first, the machine
-last. -/
-theorem C18_nested_exact (D : Defs) (E : List Nat) (roots : List Tree)
-    (hW : enteredWF E roots = true) :
+/-- **C18, nested, FULL STRENGTH** (kept visible; FALSE for the code as it is — see
+`C18_nested_exact_counterexample`): for every state tree, every placement of final flags and
+callbacks, every assignment of state objects to paths, every configuration and every entered set a
+transition can produce (`enteredWF`: the entered states are active afterwards, and below an entered
+state everything active was entered), `_final_check` returns — without raising — exactly the owners
+that fire, children first, the machine last. -/
+def C18_nested_exact : Prop :=
+  ∀ (D : Defs) (E : List Nat) (roots : List Tree), enteredWF E roots = true →
+    finalCheckRoot D E roots = .ok (expected D E roots)
+
+/-- the part that holds: no entered state shares its state OBJECT with another active state
+(`noShared`; always true unless one `HierarchicalMachine` instance is embedded as `children` of several
+states that are active together) -/
+theorem C18_nested_exact_partial (D : Defs) (E : List Nat) (roots : List Tree)
+    (hW : enteredWF E roots = true) (hS : noShared D E roots = true) :
     finalCheckRoot D E roots = .ok (expected D E roots) :=
-  finalCheckRoot_spec D E roots hW
+  finalCheckRoot_spec D E roots hW hS
+
+/-- in particular the full statement holds for every machine in which distinct paths are distinct
+objects — every machine built from names / dicts / a child machine used once — and for the code with
+proposed_fixes/C18_3.diff (which compares the scope prefix of the enter partial as well, i.e. paths) -/
+theorem C18_nested_exact_distinct_objects (D : Defs) (E : List Nat) (roots : List Tree)
+    (hO : ∀ a b, D.obj a = D.obj b → a = b) (hW : enteredWF E roots = true) :
+    finalCheckRoot D E roots = .ok (expected D E roots) := by
+  refine finalCheckRoot_spec D E roots hW ?_
+  simp only [noShared, List.all_eq_true, Bool.or_eq_true, bne_iff_ne, ne_eq, beq_iff_eq]
+  intro e _ i _
+  by_cases h : D.obj e = D.obj i
+  · exact Or.inr (hO e i h)
+  · exact Or.inl h
 
 /-- the callbacks run are those of the owners that fire, in that order -/
-theorem C18_nested_calls (D : Defs) (E : List Nat) (roots : List Tree) (hW : enteredWF E roots = true) :
+theorem C18_nested_calls (D : Defs) (E : List Nat) (roots : List Tree) (hW : enteredWF E roots = true)
+    (hS : noShared D E roots = true) :
     ∃ os, finalCheckRoot D E roots = .ok os ∧ runCalls D os = (expected D E roots).flatMap D.cbsOf :=
-  ⟨_, C18_nested_exact D E roots hW, rfl⟩
+  ⟨_, C18_nested_exact_partial D E roots hW hS, rfl⟩
 
 /-- `expected` is `[s | fires s]`: a state's on_final list is scheduled iff the state is active and fires -/
 theorem C18_nested_owner_iff (D : Defs) (E : List Nat) (roots : List Tree) (i : Nat) :
@@ -172,6 +257,29 @@ example : finalCheckRoot (defsOf [1]) [1, 2] witnessCompound = .ok [.state 1] :=
 example : finalCheckRoot (defsOf [6, 7]) [7] [.node 1 [.node 2 [.node 5 []], .node 3 [.node 6 []], .node 4 [.node 7 []]]]
     = .ok [.state 7, .state 4] := by decide
 
+/-! ### finding F-C18-shared-state-object: witness decided by evaluation
+
+One child machine {work, done (final)} embedded as children of both regions a = 2 and b = 3 of parallel
+P = 1: paths 4 = P_a_done and 5 = P_b_done are the SAME state object (object 4).  b is already in `done`;
+`to_P_a_done` enters 4 only.  The code also takes 5 for "just entered" (same object) and runs on_final of
+`done` and of region b a second time. -/
+
+def sharedDefs : Defs :=
+  { final := fun s => s == 4 || s == 5, onFinal := fun s => [100 + s], machineOnFinal := [100],
+    obj := fun s => if s == 5 then 4 else s }
+def witnessShared : List Tree := [.node 1 [.node 2 [.node 4 []], .node 3 [.node 5 []]]]
+
+example : enteredWF [4] witnessShared = true ∧ noShared sharedDefs [4] witnessShared = false := by decide
+theorem C18_nested_exact_counterexample_shared :
+    finalCheckRoot sharedDefs [4] witnessShared = .ok [.state 4, .state 2, .state 5, .state 3, .state 1, .machine] ∧
+    expected sharedDefs [4] witnessShared = [.state 4, .state 2, .state 1, .machine] := by decide
+
+theorem C18_nested_exact_counterexample : ¬ C18_nested_exact := by
+  intro h
+  have h1 := h sharedDefs [4] witnessShared (by decide)
+  rw [C18_nested_exact_counterexample_shared.1, C18_nested_exact_counterexample_shared.2] at h1
+  exact absurd h1 (by decide)
+
 /-! ### non-vacuity -/
 
 /-- the README example (A -> B with regions X [final], Y = {yI, yII final}, Z = {zI, zII final}):
@@ -179,7 +287,7 @@ B=1, X=2, Y=3, Z=4, yII=5, zII=6; after `final_Z` (enters zII only) Z, B and the
 this order; the hypotheses of the theorems hold -/
 def readme : List Tree := [.node 1 [.node 2 [], .node 3 [.node 5 []], .node 4 [.node 6 []]]]
 
-example : enteredWF [6] readme = true ∧ (idsL readme).Nodup := by decide
+example : enteredWF [6] readme = true ∧ noShared (defsOf [2, 5, 6]) [6] readme = true ∧ (idsL readme).Nodup := by decide
 example : finalCheckRoot (defsOf [2, 5, 6]) [6] readme = .ok [.state 6, .state 4, .state 1, .machine] := by decide
 example : runCalls (defsOf [2, 5, 6]) [.state 6, .state 4, .state 1, .machine] = [106, 104, 101, 100] := by decide
 /-- one step earlier (`final_Y`, zI = 7 still active in Z): only yII and Y fire -/
